@@ -27,12 +27,15 @@ Ob(e) == [t |-> "obj", e |-> e]
 NLs(n) == [i \in 1..n |-> 10]
 
 ParseKinds == {"badobj", "badtag", "unknowntag", "strayend", "strayclause", "badif", "openif", "openraw", "opencomment"}
-RenderKinds == {"filtererr", "converr", "nofilter", "strict", "nofile", "incarg", "ifcond", "forcoll", "casesubj", "assignerr", "whenerr", "captureinner"}
+RenderKinds == {"filtererr", "converr", "dateerr", "argerr", "nofilter", "strict", "nofile", "incarg", "ifcond", "forcoll", "casesubj", "assignerr", "whenerr", "captureinner"}
 DivZero == [t |-> "filter", e |-> Lit(IntV(1)), name |-> "divided_by", args |-> <<Lit(IntV(0))>>]
 Bad(k) ==
   CASE k \in ParseKinds -> [t |-> k]
     [] k = "filtererr" -> Ob([t |-> "filter", e |-> Lit(IntV(1)), name |-> "divided_by", args |-> <<Lit(IntV(0))>>])
     [] k = "converr" -> Ob([t |-> "filter", e |-> Lit(Str(<<113>>)), name |-> "plus", args |-> <<Lit(IntV(1))>>])
+    \* other conversions that fail: a text that is no date; a non-numeric argument
+    [] k = "dateerr" -> Ob([t |-> "filter", e |-> Lit(Str(<<115, 111, 111, 110>>)), name |-> "date", args |-> <<Lit(Str(<<37, 89>>))>>])
+    [] k = "argerr" -> Ob([t |-> "filter", e |-> Lit(IntV(1)), name |-> "plus", args |-> <<Lit(Str(<<113>>))>>])
     [] k = "nofilter" -> Ob([t |-> "filter", e |-> Lit(IntV(1)), name |-> "nosuchfilter", args |-> <<>>])
     [] k = "strict" -> Ob(Var(<<117, 110, 100, 101, 102>>))
     [] k = "nofile" -> [t |-> "include", e |-> Lit(Str(<<110, 111, 102, 105, 108, 101>>))]
@@ -45,7 +48,7 @@ Bad(k) ==
     [] k = "whenerr" -> [t |-> "case", e |-> Lit(IntV(1)), pre |-> <<>>, whens |-> <<[vals |-> <<[t |-> "filter", e |-> Lit(IntV(1)), name |-> "nosuchfilter", args |-> <<>>]>>, body |-> <<T(<<113>>)>>]>>]
     [] k = "captureinner" -> [t |-> "capture", name |-> <<113>>, body |-> <<T(<<10>>), Ob(DivZero)>>]
 Mention(k) == CASE k = "filtererr" -> "divided_by" [] k = "nofilter" -> "nosuchfilter" [] k = "unknowntag" -> "nosuchtag" [] OTHER -> ""
-HasCause(k) == k \in {"filtererr", "converr", "ifcond", "forcoll", "casesubj", "assignerr", "captureinner"}
+HasCause(k) == k \in {"filtererr", "converr", "dateerr", "argerr", "ifcond", "forcoll", "casesubj", "assignerr", "captureinner"}
 
 Wrappers == {"if", "for", "case", "capture", "unless"}
 RECURSIVE Shapes(_)
